@@ -220,3 +220,9 @@ extend("C01", "Engine V proves Curve.eval's dispatch for ALL inputs: a scalar ar
 ENGINE_V += ["C05"]
 extend("C12", SHAPE_V % "Curve.fit_points (nodes given / default)")
 ENGINE_V += ["C12"]
+FACADE2 = ("Engine V also proves, for ALL vectors and arguments, that %s return a NEW KnotVector object with a new payload and leave the operand's payload object in "
+           "place (deepcopy by its own proved contract, the in-place operators by theirs).")
+extend("C17", FACADE2 % "`U | V` and `U & V`" + " and that `|=` / `&=` install their result atomically; the VALUES of the merge are decided per joint shape (engine S).")
+extend("C18", FACADE2 % "`U + a`, `U - a`, `U * s`, `s * U`, `U / s`" + " with every knot mapped affinely.")
+extend("C03", FACADE2 % "copy, deepcopy and every non-in-place operator (+, -, *, /, |, &)")
+ENGINE_V += ["C17"]
